@@ -33,13 +33,27 @@ REPLY_CLASSES_DATA = ["valid", "badtag", "badinner", "error", "garbage", "hsr", 
 REPLY_CLASSES_V2 = ["valid", "badsig", "garbage", "signed_garbage", "none", "valid+unsolicited", "dup"]
 
 
+FIELDS = {"call": ("e", "op", "cr"), "connreq": ("e",), "close": ("e", "c"), "connok": ("e", "c"), "connrefuse": ("e",), "connhang": ("e",),
+          "tx": ("e", "c", "t", "ctr", "tok", "k", "wf", "reply"), "ret": ("e", "op", "r", "n", "stored"),
+          "deliver": ("e", "c", "m", "k", "gen", "live", "i"), "devcall": ("e", "op"), "devret": ("e", "op", "raised", "online", "frames"), "lost": ("e", "c", "m", "i"), "peerclose": ("e", "c"),
+          "jumpauth": ("e",), "jumplife": ("e",), "timer": ("e",), "cancel": ("e",)}
+
+
+def norm_event(e):
+    """Exactly the fields the LanSession model publishes for this kind of event (record equality in TLC)."""
+    return {k: e[k] for k in FIELDS[e["e"]]}
+
+
 def acdev_state_frame():
     from . import acdev
     return acdev.resp_frame(4, acdev.encode_state(acdev.DEFAULT_STATE), "crc")
 
 
 class Session:
-    def __init__(self, *, version=3, retries=3, lifetime=None, seed=0, target="lan", ac=None):
+    def __init__(self, *, version=3, retries=3, lifetime=None, seed=0, target="lan", ac=None, creds=None):
+        """creds: optional (good_token, good_key, bad_token, bad_key) - default fixed test vectors."""
+        self.tok_good, self.key_good, self.tok_bad, self.key_bad = creds or (GOOD_TOKEN, GOOD_KEY, BAD_TOKEN, BAD_KEY)
+        self.presented_key = self.key_good
         from msmart.lan import LAN
         vloop.install_clock()
         self.loop = vloop.new_loop()
@@ -54,7 +68,7 @@ class Session:
                 self.rx_frames.append(bytes(f))
                 return [bytes(f)]
         self.ac = ac or _Echo()
-        self.dev = landev.LanDevice(self.loop, self.net, self.ac, version=version, token=GOOD_TOKEN, key=GOOD_KEY, seed=seed)
+        self.dev = landev.LanDevice(self.loop, self.net, self.ac, version=version, token=self.tok_good, key=self.key_good, seed=seed)
         self.dev.respond = self._park
         self.dev.reply_filter = self._filter
         self.parked = []                 # dicts: conn, data, cls, k (key id), gen
@@ -62,12 +76,14 @@ class Session:
         self.next_reply_hs = None        # standing choice by kind (random walks)
         self.next_reply_data = None
         self.trace = []
+        self.steps = []                  # the same events grouped per environment action (one LanSession step each)
         self.task = None
         self.call_name = None
         self.result = None
         self._ev_mark = 0
         self._rx_mark = 0
         self.target = target
+        self.op_frames = 0               # frames returned by the LAN exchanges of the running device-level operation
         if target == "lan":
             self.lan = LAN("10.0.0.1", 6444, 0x0A0B0C0D0E0F)
             self.obj = self.lan
@@ -96,7 +112,14 @@ class Session:
         out = []
 
         def park(data, c, k=0, gen=False):
-            out.append({"conn": tr.cid, "data": bytes(data), "cls": c, "k": k, "gen": gen})
+            out.append({"conn": tr.cid, "data": bytes(data), "cls": c, "k": k, "gen": gen, "obs": self._observe(bytes(data))})
+        if cls.startswith("raw:"):                      # byte-level adversary: the reply is exactly these bytes
+            data = bytes.fromhex(cls[4:])
+            m, k, gen = self._classify(data, s)
+            park(data, m, k, gen)
+            self._last_cls = "raw"
+            self.parked += out
+            return []
         if kind == "hs":
             p = packets[0]
             body = p[8:]
@@ -112,7 +135,18 @@ class Session:
             elif cls == "long":
                 park(landev.v3_plain_packet(1, 0, body + b"\x00"), "HSR", k, False)
             elif cls == "retype":
-                park(p[:5] + bytes([0x02]) + p[6:], "OTHER", k, False)
+                park(p[:5] + bytes([0x02]) + p[6:], "OTHER")
+            elif cls.startswith("flip:"):                 # one bit of the 64-byte reply payload inverted
+                b = int(cls[5:])
+                q = bytearray(p)
+                q[8 + b // 8] ^= 1 << (b % 8)
+                park(bytes(q), "HSR", k, False)
+            elif cls.startswith("len:"):                  # reply payload cut / extended to n bytes (size field consistent)
+                n = int(cls[4:])
+                park(landev.v3_plain_packet(1, 0, (body + bytes(range(1, 40)))[:n]), "HSR", k, n == 64)
+            elif cls.startswith("type:"):                 # another packet type nibble in place of the reply
+                t = int(cls[5:])
+                park(p[:5] + bytes([(p[5] & 0xF0) | t]) + p[6:], {1: "HSR", 15: "ERR", 3: "ENC"}.get(t, "OTHER"), k if t in (1, 3) else 0, t == 1)
             elif cls == "otherkey":
                 nonce = bytes(range(32))
                 park(landev.v3_plain_packet(1, 0, landev.hs_reply_payload(OTHER_KEY, nonce)), "HSR", k, False)
@@ -171,6 +205,38 @@ class Session:
     def _park(self, tr, packets):   # never called: _filter returns []
         pass
 
+    def _observe(self, data):
+        """Reference-evaluated facts about one device->client message (independent codecs of landev/refcrypto).  The
+        specification, not this harness, decides from them whether a handshake reply is genuine (Trace_Mon!Ev)."""
+        if self.version != 3:
+            return {"ty": -1, "ln": len(data), "proof": False}
+        ok_hdr = len(data) >= 8 and data[:2] == b"\x83\x70" and data[4] == 0x20 and int.from_bytes(data[2:4], "big") + 8 == len(data)
+        if not ok_hdr:
+            return {"ty": -1, "ln": len(data), "proof": False}
+        body = data[8:]
+        proof = False
+        if len(body) >= 64:
+            proof = rc.sha256(rc.cbc_decrypt(self.presented_key, body[:32])) == body[32:64]
+        return {"ty": data[5] & 0xF, "ln": len(body), "proof": bool(proof)}
+
+    def _classify(self, data, s):
+        """Abstract class (m, k, gen) of raw reply bytes, by the reference parsers."""
+        if self.version == 2:
+            o = landev.v2_unwrap(data)
+            return "PKT", 0, bool(o["ok"])
+        ob = self._observe(data)
+        if ob["ty"] == 1:
+            return "HSR", s["keyid"], bool(ob["ln"] == 64 and ob["proof"])
+        if ob["ty"] == 15:
+            return "ERR", 0, False
+        if ob["ty"] == 3:
+            for kid, k in sorted(self.dev.keys.items(), reverse=True):
+                o = landev.v3_dec_packet(k, data)
+                if o["ok"]:
+                    return "ENC", kid, bool(landev.v2_unwrap(o["payload"])["ok"])
+            return "ENC", s["keyid"], False
+        return "OTHER", 0, False
+
     # ---- observation ---------------------------------------------------------------------------
     def _collect(self, ev):
         """Append env event `ev` followed by the client-observable events it caused."""
@@ -183,6 +249,10 @@ class Session:
                 evs.append({"e": "close", "c": e[1] + 1})
             elif e[0] == "connreq":
                 evs.append({"e": "connreq"})
+            elif e[0] == "call":
+                evs.append({"e": "call", "op": "send", "cr": "cached"})
+            elif e[0] == "ret":
+                evs.append(self._ret_of("send", e[1]))
             elif e[0] == "tx":
                 r = rx[rxi] if rxi < len(rx) else {"kind": "garbage"}
                 rxi += 1
@@ -190,9 +260,16 @@ class Session:
         self._ev_mark = len(self.net.events)
         self.next_reply.clear()
         if self.task is not None and self.task.done():
-            evs.append(self._ret_event())
+            if str(self.call_name).startswith("dev:"):
+                t = self.task
+                raised = t.cancelled() or t.exception() is not None
+                evs.append({"e": "devret", "op": self.call_name[4:], "raised": bool(raised), "online": bool(self.obj.online), "frames": self.op_frames,
+                            "exc": "" if not raised else ("CancelledError" if t.cancelled() else type(t.exception()).__name__)})
+            else:
+                evs.append(self._ret_event())
             self.task = None
         self.trace += evs
+        self.steps.append([norm_event(e) for e in evs])
         return evs
 
     def _tx_event(self, c, r):
@@ -200,14 +277,15 @@ class Session:
         if r.get("kind") == "hs":
             raw = r["raw"]
             tok = raw[8:]
-            return {"e": "tx", "c": c, "t": "HS", "ctr": r["ctr"], "tok": "good" if tok == GOOD_TOKEN else ("bad" if tok == BAD_TOKEN else "other"),
+            return {"e": "tx", "c": c, "t": "HS", "ctr": r["ctr"], "tok": "good" if tok == self.tok_good else ("bad" if tok == self.tok_bad else "other"),
                     "k": r.get("keyid", 0), "wf": bool(raw[:6] == b"\x83\x70" + len(tok).to_bytes(2, "big") + b"\x20\x00"),
                     "reply": self._abs_hs(cls, r)}
         if r.get("kind") == "data":
             return {"e": "tx", "c": c, "t": "DATA", "ctr": r.get("ctr", -1), "tok": "na", "k": r.get("keyid", 0),
                     "wf": bool(r.get("ok") and r.get("v2_ok")), "reply": ABSTRACT.get(cls, cls) if (r.get("ok") and r.get("current") and r.get("v2_ok")) else "none"}
         if r.get("kind") == "v2":
-            return {"e": "tx", "c": c, "t": "DATA", "ctr": -1, "tok": "na", "k": 0, "wf": bool(r.get("ok")), "reply": ABSTRACT.get(cls, cls) if r.get("ok") else "none"}
+            return {"e": "tx", "c": c, "t": "DATA", "ctr": -1, "tok": "na", "k": 0, "wf": bool(r.get("ok")),
+                    "reply": ("bad" if cls == "garbage" else ABSTRACT.get(cls, cls)) if r.get("ok") else "none"}
         return {"e": "tx", "c": c, "t": "JUNK", "ctr": -1, "tok": "na", "k": 0, "wf": False, "reply": "none"}
 
     def _abs_hs(self, cls, r):
@@ -220,30 +298,33 @@ class Session:
         t, k = self.lan.token, self.lan.key
         if t is None and k is None:
             return "none"
-        if t == GOOD_TOKEN and k == GOOD_KEY:
+        if t == self.tok_good and k == self.key_good:
             return "good"
-        if t == BAD_TOKEN or k == BAD_KEY:
+        if t == self.tok_bad or k == self.key_bad:
             return "bad"
         return "other"
 
     def _ret_event(self):
         t = self.task
-        ev = {"e": "ret", "op": self.call_name, "n": 0, "stored": "none"}
         if t.cancelled():
-            ev["r"] = "cancelled"
-        elif t.exception() is not None:
-            ex = t.exception()
-            name = type(ex).__name__
+            return self._ret_of(self.call_name, asyncio.CancelledError())
+        if t.exception() is not None:
+            return self._ret_of(self.call_name, t.exception())
+        return self._ret_of(self.call_name, t.result())
+
+    def _ret_of(self, op, v):
+        ev = {"e": "ret", "op": op, "n": 0, "stored": "none"}
+        if isinstance(v, BaseException):
+            name = type(v).__name__
             ev["r"] = {"ProtocolError": "proto", "AuthenticationError": "auth", "TimeoutError": "timeout", "CancelledError": "cancelled"}.get(name, "other:" + name)
-            ev["msg"] = str(ex)[:60]
+            ev["msg"] = str(v)[:60]
+        elif op == "auth":
+            ev["r"] = "authok"
         else:
-            v = t.result()
-            if self.call_name == "auth":
-                ev["r"] = "authok"
-            else:
-                ev["r"] = "frames"
-                ev["n"] = len(v) if v is not None else 0
-                self.last_frames = v
+            ev["r"] = "frames"
+            ev["n"] = len(v) if v is not None else 0
+            self.last_frames = v
+            self.op_frames += ev["n"]
         ev["stored"] = self._stored()
         return ev
 
@@ -273,11 +354,47 @@ class Session:
 
     # ---- primitives ----------------------------------------------------------------------------------
     def call_send(self, reply=None):
+        self.presented_key = self.lan.key or self.key_good      # an implicit handshake presents the stored key
         return self._call("send", lambda: self.lan.send(self.frame, retries=self.retries), "cached", reply)
 
-    def call_auth(self, creds, reply=None):
-        tok, key = (GOOD_TOKEN, GOOD_KEY) if creds == "good" else (BAD_TOKEN, BAD_KEY)
+    def call_auth(self, creds, reply=None, hexform=False, level="lan"):
+        tok, key = (self.tok_good, self.key_good) if creds == "good" else (self.tok_bad, self.key_bad)
+        self.presented_key = key
+        if hexform:
+            tok, key = tok.hex(), key.hex()
+        if level == "dev":                    # through Device.authenticate (default retry budget)
+            return self._call("auth", lambda: self.obj.authenticate(tok, key), creds, reply)
         return self._call("auth", lambda: self.lan.authenticate(tok, key, retries=self.retries), creds, reply)
+
+    def call_op(self, name, reply=None):
+        """Device-level operation (refresh/apply/...) on the AirConditioner; its LAN exchanges appear as ordinary send calls."""
+        assert self.task is None and self.target != "lan"
+        if reply:
+            self.next_reply.append(reply)
+        self._wrap_lan()
+        self.call_name = "dev:" + name
+        self.op_frames = 0
+        self.task = self.loop.in_context(lambda: self.loop.create_task(getattr(self.obj, name)()))
+        self.loop.run_idle()
+        return self._collect({"e": "devcall", "op": name})
+
+    def _wrap_lan(self):
+        if getattr(self, "_wrapped", False):
+            return
+        self._wrapped = True
+        orig = self.lan.send
+        net = self.net
+
+        async def send(data, *a, **kw):
+            net.log(("call", "send"))
+            try:
+                r = await orig(data, *a, **kw)
+            except BaseException as ex:
+                net.log(("ret", ex))
+                raise
+            net.log(("ret", r))
+            return r
+        self.lan.send = send
 
     def _call(self, name, mk, cr, reply):
         assert self.task is None
@@ -310,7 +427,8 @@ class Session:
         cur = self.lan._protocol is not None and getattr(self.lan._protocol, "_transport", None) is tr
         fed = tr.feed(m["data"])
         self.loop.run_idle()
-        return self._collect({"e": "deliver", "c": m["conn"] + 1, "m": m["cls"], "k": m["k"], "gen": bool(m["gen"]), "live": bool(fed)})
+        return self._collect({"e": "deliver", "c": m["conn"] + 1, "m": m["cls"], "k": m["k"], "gen": bool(m["gen"]), "live": bool(fed), "i": i + 1,
+                              "obs": m.get("obs") or {"ty": -1, "ln": 0, "proof": False}})
 
     def timer(self, reply=None):
         if reply:
@@ -354,4 +472,4 @@ class Session:
     def drop(self, i=0):
         """An in-flight message is lost in the network."""
         m = self.parked.pop(i)
-        return self._collect({"e": "lost", "c": m["conn"] + 1, "m": m["cls"]})
+        return self._collect({"e": "lost", "c": m["conn"] + 1, "m": m["cls"], "i": i + 1})
